@@ -31,7 +31,7 @@ NET_TOKENS = [
     b"file.txt", b"this.value", b"object.prototype.x", b"a_b.com", b"-a.com", b"EXAMPLE.COM", b"Example.Org", b"example.c0m", b"foo.bar.baz.qux.info",
     b"user@example.com", b"first.last+tag@sub.example.org", b"a@b.co", b"x@y", b"abc@evil-site.net.",
     b"http://", b"https://", b"ftp://", b"HTTP://", b"hTTp://", b"gopher://", b"http:/", b"user@", b"user:pw@", b":pw@", b"user:@", b"@",
-    b"%41", b"%7e", b"%7E", b"%2f", b"%2F", b"%2e", b"%2E%2E", b"%zz", b"%", b"%5B", b"%5b::1%5d", b"[::1]", b"[2001:db8::1]",
+    b"%41", b"%7e", b"%7E", b"%4%61", b"%%36f", b"%%41", b"%2%66", b"%2f", b"%2F", b"%2e", b"%2E%2E", b"%zz", b"%", b"%5B", b"%5b::1%5d", b"[::1]", b"[2001:db8::1]",
     b":80", b":8080", b":", b":99999", b"/", b"/a", b"/a/b", b"/.", b"/..", b"/./", b"/../", b"/a/../b", b"//", b"/%2e%2e/", b"/a%2Fb",
     b"?", b"?q=1", b"?q=%41&r=%20", b"#", b"#frag", b"#f%41", b"?#", b"/?#", b".", b",", b";", b"'", b")", b"(", b'"', b" ", b"\n", b"\x00",
     b"\x1ahttp://example.com/abcdefghijklmnopqrstuvwxyz", b"\\\\host.com\\share\\", b"\\\\1.2.3.4@SSL@8080\\dav\\x.exe", b"C:\\Windows\\", b"..\\", b".\\",
@@ -69,7 +69,7 @@ def url_lattice(rng: random.Random, tier: str) -> list[bytes]:
     hosts = [b"example.com", b"sub.evil-site.net", b"1.2.3.4", b"0x7f.1", b"010.0.0.1", b"3232235777", b"127.0.0.1", b"ex%61mple.com", b"EXAMPLE.COM",
              b"localhost", b"[::1]", b"example.invalidtld", b"0x7f.0x0.0.0x1", b"1.2.3", b"999.1.1.1"]
     ports = [b"", b":80", b":", b":65535"]
-    segs = [b".", b"..", b"a", b"", b"%2F", b"%41", b"%2e", b"b.c", b"..."]
+    segs = [b".", b"..", b"a", b"", b"%2F", b"%41", b"%2e", b"b.c", b"...", b"%4%61", b"%%36f"]
     paths = [b"", b"/"] + [b"/" + b"/".join(c) for n in (1, 2, 3) for c in itertools.product(segs, repeat=n)]
     if tier == "quick":
         paths = paths[:12] + rng.sample(paths[12:], 60)
@@ -102,10 +102,10 @@ def win_lattice(rng: random.Random, tier: str) -> list[bytes]:
     return out
 
 
-def mini_pe(nsec: int, trailing: int, rng: random.Random, order: str = "file", bss: bool = False) -> bytes:
+def mini_pe(nsec: int, trailing: int, rng: random.Random, order: str = "file", bss: bool = False, dos_fill: int = 0) -> bytes:
     """A structurally valid PE file: DOS header, PE signature, COFF header, optional header, section table, raw data."""
     e_lfanew = 0x80
-    dos = b"MZ" + bytes(0x3A) + struct.pack("<I", e_lfanew)
+    dos = b"MZ" + bytes([dos_fill]) * 0x3A + struct.pack("<I", e_lfanew)       # (the DOS header fields are free-form for carving)
     dos += bytes(e_lfanew - len(dos))
     opt_size = 0xE0
     coff = struct.pack("<HHIIIHH", 0x14C, nsec, 0, 0, 0, opt_size, 0x0102)
@@ -155,6 +155,9 @@ def instances(rng: random.Random, tier: str) -> list[dict]:
     for _ in range(60 if tier == "quick" else 1000):
         local = rng.choice([b"user", b"first.last", b"a+b", b"x_y%z", b"abc"])
         add("email", local + b"@" + rng.choice(labels[2:5]) + b"." + rng.choice(tlds[:4]))
+    for dom in (b"email.it", b"data.services", b"x.example.io", b"this.company.com", b"user.name", b"system.email", b"a.info", b"object.id"):
+        for local in (b"billing", b"ops.team", b"a+b"):
+            add("email", local + b"@" + dom)
     for p in win_lattice(rng, tier)[: 120 if tier == "quick" else 2000]:
         add("winpath", p)
     for _ in range(60 if tier == "quick" else 800):
@@ -170,6 +173,8 @@ def instances(rng: random.Random, tier: str) -> list[dict]:
     for nsec in (1, 2, 3):
         for trailing in (0, 16):
             add("pe", mini_pe(nsec, 0, rng), trailing=trailing)
+    for fill in (0x0A, 0x0D, 0xFF, 0x4D):
+        add("pe", mini_pe(2, 0, rng, dos_fill=fill), trailing=4)
     for nsec in (2, 3, 4):
         add("pe", mini_pe(nsec, 0, rng, order="reverse"), trailing=8)
         add("pe", mini_pe(nsec, 0, rng, bss=True), trailing=8)
